@@ -25,5 +25,6 @@ TD_Whitelist == {"A"}
 TD_ValCfg == [max_size |-> 1, oldest |-> 1, valid_kinds |-> {1}, whitelist |-> {"A"}, blacklist |-> {}, require_pow |-> 0, hell_limit |-> 0, service_pk |-> "S"]
 TD_Static == {}
 TD_AllowQuery == [ids |-> <<>>, authors |-> <<>>, kinds |-> <<{3}>>, tags |-> {}, since |-> <<>>, until |-> <<>>, limit |-> <<>>]
+TD_JunkConns == {0, 1}
 Traces == <<>>
 =============================================================================
